@@ -940,6 +940,62 @@ def handles(prog, chk, rule="request-handles", which=("cancel", "cancel_retransm
             handle_fn(prog, chk, rule, k_, {}, result=is_to)
 
 
+
+def schedule_formula(prog, chk, rule="schedule-formula", n=10):
+    """configure_timeout(initial_rto, retransmits, last): the interval after transmission i is initial_rto * 2^i (RFC 8489
+    section 6.2.1 with a configured RTO).  The closure the function maps (UDP: one interval per retransmission) or folds (TCP:
+    their sum) over the index range is evaluated in context for the constant indices 0..n with durations as uninterpreted
+    terms: a result `initial_rto * k` (through `*`, saturating_mul, a helper, a shift or pow for the factor - whatever
+    computes it) is compared with k = 2^i.  Only positive evidence is a violation; an interval the analysis cannot read as
+    `initial_rto * constant` is listed as not decided."""
+    key = RMUT + "configure_timeout"
+    body = prog.bodies.get(key)
+    if body is None:
+        return
+    arg = {body.locals[i]["name"]: i for i in range(1, body.arg_count + 1)}
+    probe = {"n": n, "out": [], "terms": {}}
+    cellname = {}
+
+    def setup(run, st):
+        run.it.range_probe = probe
+        cellname["rto"] = run.it.cell_of(run.fr, arg.get("initial_rto", 2))
+    r = Run(prog, key, setup=setup)
+    decided, undecided = [], []
+    for op, i, where, res in probe["out"]:
+        label = "%s interval %d" % ("UDP" if op == "map" else "TCP sum,", i)
+        if not res:
+            undecided.append(label + " (closure not evaluated)")
+            continue
+        for st, v in res:
+            if st.sys.bottom or not st.sys.feasible():
+                continue
+            rto = st.cells.get(cellname["rto"])
+            t = None
+            if op == "map" and isinstance(v, Num):
+                e = st.sys.reduce(v.e)
+                names = [x for x in e.t if x in probe["terms"]]
+                if len(e.t) == 1 and names and e.t[names[0]] == 1 and e.c == 0:
+                    t = probe["terms"][names[0]]
+            elif op == "fold" and isinstance(v, Term) and v.op == "add" and len(v.a) == 2:
+                accs = [x for x in v.a if isinstance(x, Term) and x.op == "in" and x.a == ("acc",)]
+                rest = [x for x in v.a if x not in accs]
+                if len(accs) == 1 and len(rest) == 1:
+                    t = rest[0]
+            k = None
+            if isinstance(t, Term) and t.op == "mul" and len(t.a) == 2 and same_value(st, t.a[0], rto) and isinstance(t.a[1], Num):
+                k = st.sys.const_value(t.a[1].e)
+            if k is None:
+                undecided.append("%s (%r)" % (label, t if t is not None else v))
+                continue
+            decided.append(label)
+            chk.ob(rule, "configure_timeout|%s = initial_rto * 2^%d" % (label, i), int(k) == 2 ** i, body.loc(),
+                   detail="the interval after transmission %d is initial_rto * %d, not initial_rto * %d" % (i, k, 2 ** i),
+                   how="E2: the per-index closure evaluated in context for a constant index, durations as uninterpreted terms")
+    chk.analysed["schedule_formula_decided"] = sorted(set(decided))
+    chk.analysed["schedule_formula_undecided"] = sorted(set(undecided))[:12]
+    chk.counts["schedule_formula_decided"] = len(set(decided))
+
+
 def membership(prog, chk, rule, key, container, argname, some=None):
     """a query method: answers exactly whether `argname` is in `container`, changing nothing"""
     body = prog.bodies.get(key)
